@@ -27,6 +27,30 @@ func (a *Actor) AtTrimEdge(u UTXORec) bool {
 		h+types.TrimDepths[u.Entry.Denomination] == a.ZoneNumber()+1
 }
 
+// TrimDue returns how many blocks from now the next trimming happens (0 = the very next block
+// trims at least one stored output) among the zero-lock small-denomination outputs this actor's
+// transactions created, and whether there is any such output.
+func (a *Actor) TrimDue() (uint64, bool) {
+	best, any := uint64(0), false
+	for _, u := range ScanUTXOs(a.Net.Nodes[Zone].DB) {
+		if u.Entry == nil || u.Entry.Denomination > types.MaxTrimDenomination || u.Entry.Lock.Sign() != 0 {
+			continue
+		}
+		h, ok := a.created[types.OutPoint{TxHash: u.TxHash, Index: u.Index}]
+		if !ok {
+			continue
+		}
+		due := h + types.TrimDepths[u.Entry.Denomination]
+		if due < a.ZoneNumber()+1 {
+			continue
+		}
+		if d := due - (a.ZoneNumber() + 1); !any || d < best {
+			best, any = d, true
+		}
+	}
+	return best, any
+}
+
 // Actor drives one Net along a branch: it owns the heads it mines on, remembers nonces per
 // branch and draws traffic and mining choices from rapid.
 type Actor struct {
@@ -45,11 +69,11 @@ type Actor struct {
 	Contracts []common.Address
 
 	// workshares this actor mined and handed to the zone worker
-	Shares   []*types.WorkObjectHeader
+	Shares []*types.WorkObjectHeader
 	// when set, Qi->Quai conversions are addressed to these accounts only (accounts that nothing
 	// else ever pays or charges, so that their balance is exactly the conversions credited)
 	ConvRecipients []common.Address
-	NoShares bool // MineRandom mines no workshares
+	NoShares       bool // MineRandom mines no workshares
 
 	// zone height at which each Qi-transaction output seen in this actor's blocks was created
 	created map[types.OutPoint]uint64
@@ -401,6 +425,37 @@ func (a *Actor) submit(t *rapid.T, kind string) {
 		if errs[0] == nil {
 			a.label("tx_" + kind)
 		}
+	case "qidust":
+		// one large output is split into change plus 1-4 small zero-lock outputs (denominations 0-5,
+		// the ones the protocol trims TrimDepths blocks after their creation)
+		us, owners := a.spendable()
+		var cands []int
+		for i, u := range us {
+			if u.Entry.Denomination >= 6 && !a.AtTrimEdge(u) {
+				cands = append(cands, i)
+			}
+		}
+		if len(cands) == 0 {
+			return
+		}
+		i := cands[rapid.IntRange(0, len(cands)-1).Draw(t, "dustUtxo")]
+		u, k := us[i], owners[i]
+		outs := []QiOut{{Denomination: u.Entry.Denomination - 1, To: a.freshQi().Addr}}
+		var dens []uint8
+		for j, nd := 0, rapid.IntRange(1, 4).Draw(t, "nDust"); j < nd; j++ {
+			d := uint8(rapid.IntRange(0, 4).Draw(t, "dustDen"))
+			dens = append(dens, d)
+			outs = append(outs, QiOut{Denomination: d, To: a.freshQi().Addr})
+		}
+		tx, err := QiTx(k, []UTXORec{u}, outs, nil)
+		if err != nil {
+			return
+		}
+		errs := a.Net.SubmitTxs(tx)
+		a.logf("tx qidust in=%s change=den%d dust=%v err=%v", u, u.Entry.Denomination-1, dens, errs[0])
+		if errs[0] == nil {
+			a.label("tx_qidust")
+		}
 	case "qichain":
 		// two Qi transactions in one block, the second spending an output the first creates. The pool
 		// validates inputs against the committed set only, so the second one is injected the way the
@@ -716,7 +771,7 @@ func (a *Actor) QiTraffic(t *rapid.T) {
 			a.submit(t, "quai2qi")
 			continue
 		}
-		a.submit(t, rapid.SampledFrom([]string{"qispend", "qispend", "qichain", "qichain", "qi2quai", "qixzone"}).Draw(t, "qikind"))
+		a.submit(t, rapid.SampledFrom([]string{"qispend", "qispend", "qichain", "qichain", "qi2quai", "qixzone", "qidust", "qidust"}).Draw(t, "qikind"))
 	}
 }
 
@@ -744,7 +799,7 @@ func (a *Actor) AdversarialTraffic(t *rapid.T) {
 	}
 	n := rapid.IntRange(0, 2).Draw(t, "nadv")
 	for i := 0; i < n; i++ {
-		kind := rapid.SampledFrom([]string{"underpriced", "noncegap", "qiconflict", "revertcall"}).Draw(t, "advkind")
+		kind := rapid.SampledFrom([]string{"underpriced", "noncegap", "qiconflict", "revertcall", "qidupinput", "qimerge"}).Draw(t, "advkind")
 		gp := a.gasPrice()
 		switch kind {
 		case "underpriced", "noncegap", "revertcall":
@@ -775,6 +830,43 @@ func (a *Actor) AdversarialTraffic(t *rapid.T) {
 			errs := a.Net.SubmitTxs(tx)
 			a.logf("tx adversarial %s from=%x nonce=%d err=%v", kind, from.Addr.Bytes()[:3], nonce, errs[0])
 			a.label("adv_" + kind)
+		case "qidupinput", "qimerge":
+			// a multi-input Qi transaction (MuSig2 over the listed keys): either two different outputs
+			// merged (valid), or ONE output named twice with outputs worth more than it holds
+			us, owners := a.spendable()
+			if len(us) == 0 {
+				continue
+			}
+			i := rapid.IntRange(0, len(us)-1).Draw(t, "utxo")
+			j := i
+			if kind == "qimerge" {
+				if len(us) < 2 {
+					continue
+				}
+				j = (i + 1 + rapid.IntRange(0, len(us)-2).Draw(t, "utxo2")) % len(us)
+			}
+			if us[i].Entry.Denomination < 4 || us[j].Entry.Denomination < 4 {
+				continue
+			}
+			total := types.Denominations[us[i].Entry.Denomination].Int64() + types.Denominations[us[j].Entry.Denomination].Int64()
+			fee := total / 5
+			dens := splitDenoms(total-fee, types.MaxDenomination, rapid.IntRange(1, 3).Draw(t, "nout"))
+			if len(dens) == 0 {
+				continue
+			}
+			var outs []QiOut
+			for _, d := range dens {
+				outs = append(outs, QiOut{Denomination: d, To: a.freshQi().Addr})
+			}
+			tx, err := QiTxMulti([]*Key{owners[i], owners[j]}, []UTXORec{us[i], us[j]}, outs, nil)
+			if err != nil {
+				continue
+			}
+			errs := a.Net.SubmitTxs(tx)
+			a.logf("tx adversarial %s ins=%s,%s outs=%v err=%v", kind, us[i], us[j], dens, errs[0])
+			if errs[0] == nil {
+				a.label("adv_" + kind)
+			}
 		case "qiconflict":
 			us, owners := a.spendable()
 			if len(us) == 0 {
